@@ -1,4 +1,4 @@
-package engine
+package zzmodels
 
 // A model of the gorilla/websocket connection for symbolic runs (plain Go, executed by
 // the symbolic executor in place of the library; //verif:model binds each function to
@@ -16,29 +16,29 @@ import (
 	ws "github.com/gorilla/websocket"
 )
 
-type wsMsg struct {
-	mt   int
-	data []byte
+type WsMsg struct {
+	Mt   int
+	Data []byte
 }
 
-type wsState struct {
-	limit   int64
-	in      []wsMsg // what the client sends, in order
-	inPos   int
-	out     []wsMsg // what the server wrote
-	closed  bool
-	wake    chan struct{}
+type WsState struct {
+	Limit  int64
+	In     []WsMsg // what the client sends, in order
+	inPos  int
+	Out    []WsMsg // what the server wrote
+	Closed bool
+	wake   chan struct{}
 }
 
-var wsStates = map[*ws.Conn]*wsState{}
-var wsLastConn *ws.Conn
-var wsPending []wsMsg // frames queued by the harness for the next accepted connection
+var WsStates = map[*ws.Conn]*WsState{}
+var WsLastConn *ws.Conn
+var WsPending []WsMsg // frames queued by the harness for the next accepted connection
 
-func wsOf(c *ws.Conn) *wsState {
-	s := wsStates[c]
+func WsOf(c *ws.Conn) *WsState {
+	s := WsStates[c]
 	if s == nil {
-		s = &wsState{wake: make(chan struct{}, 16)}
-		wsStates[c] = s
+		s = &WsState{wake: make(chan struct{}, 16)}
+		WsStates[c] = s
 	}
 	return s
 }
@@ -46,59 +46,59 @@ func wsOf(c *ws.Conn) *wsState {
 //verif:model (*github.com/gorilla/websocket.Upgrader).Upgrade
 func mWsUpgrade(u *ws.Upgrader, w http.ResponseWriter, r *http.Request, h http.Header) (*ws.Conn, error) {
 	c := &ws.Conn{}
-	s := wsOf(c)
-	s.in = wsPending
-	wsPending = nil
-	wsLastConn = c
+	s := WsOf(c)
+	s.In = WsPending
+	WsPending = nil
+	WsLastConn = c
 	return c, nil
 }
 
 //verif:model (*github.com/gorilla/websocket.Conn).SetReadLimit
-func mWsSetReadLimit(c *ws.Conn, limit int64) { wsOf(c).limit = limit }
+func mWsSetReadLimit(c *ws.Conn, limit int64) { WsOf(c).Limit = limit }
 
 //verif:model (*github.com/gorilla/websocket.Conn).RemoteAddr
-func mWsRemoteAddr(c *ws.Conn) net.Addr { return c09Addr{} }
+func mWsRemoteAddr(c *ws.Conn) net.Addr { return FakeAddr{} }
 
 //verif:model (*github.com/gorilla/websocket.Conn).EnableWriteCompression
 func mWsEnableWriteCompression(c *ws.Conn, enable bool) {}
 
-var errWsReadLimit = &simpleErr{"websocket: read limit exceeded"}
-var errWsClosed = &simpleErr{"websocket: close 1006 (abnormal closure)"}
+var errWsReadLimit = &modelErr{"websocket: read limit exceeded"}
+var errWsClosed = &modelErr{"websocket: close 1006 (abnormal closure)"}
 
 //verif:model (*github.com/gorilla/websocket.Conn).NextReader
 func mWsNextReader(c *ws.Conn) (int, io.Reader, error) {
-	s := wsOf(c)
-	for s.inPos >= len(s.in) && !s.closed {
+	s := WsOf(c)
+	for s.inPos >= len(s.In) && !s.Closed {
 		<-s.wake // the peer is silent
 	}
-	if s.closed {
+	if s.Closed {
 		return -1, nil, errWsClosed
 	}
-	m := s.in[s.inPos]
+	m := s.In[s.inPos]
 	s.inPos++
-	if s.limit > 0 && int64(len(m.data)) > s.limit {
-		s.closed = true
+	if s.Limit > 0 && int64(len(m.Data)) > s.Limit {
+		s.Closed = true
 		return -1, nil, errWsReadLimit
 	}
-	return m.mt, bytes.NewReader(m.data), nil
+	return m.Mt, bytes.NewReader(m.Data), nil
 }
 
 type wsWriter struct {
-	s   *wsState
+	s   *WsState
 	mt  int
 	buf []byte
 }
 
 func (w *wsWriter) Write(p []byte) (int, error) { w.buf = append(w.buf, p...); return len(p), nil }
 func (w *wsWriter) Close() error {
-	w.s.out = append(w.s.out, wsMsg{w.mt, w.buf})
+	w.s.Out = append(w.s.Out, WsMsg{w.mt, w.buf})
 	return nil
 }
 
 //verif:model (*github.com/gorilla/websocket.Conn).NextWriter
 func mWsNextWriter(c *ws.Conn, mt int) (io.WriteCloser, error) {
-	s := wsOf(c)
-	if s.closed {
+	s := WsOf(c)
+	if s.Closed {
 		return nil, errWsClosed
 	}
 	return &wsWriter{s: s, mt: mt}, nil
@@ -106,26 +106,46 @@ func mWsNextWriter(c *ws.Conn, mt int) (io.WriteCloser, error) {
 
 //verif:model (*github.com/gorilla/websocket.Conn).WriteMessage
 func mWsWriteMessage(c *ws.Conn, mt int, data []byte) error {
-	s := wsOf(c)
-	s.out = append(s.out, wsMsg{mt, append([]byte(nil), data...)})
+	s := WsOf(c)
+	s.Out = append(s.Out, WsMsg{mt, append([]byte(nil), data...)})
 	return nil
 }
 
-var wsPrepared = map[*ws.PreparedMessage]wsMsg{}
+var wsPrepared = map[*ws.PreparedMessage]WsMsg{}
 
 //verif:model github.com/gorilla/websocket.NewPreparedMessage
 func mWsNewPreparedMessage(mt int, data []byte) (*ws.PreparedMessage, error) {
 	pm := &ws.PreparedMessage{}
-	wsPrepared[pm] = wsMsg{mt, append([]byte(nil), data...)}
+	wsPrepared[pm] = WsMsg{mt, append([]byte(nil), data...)}
 	return pm, nil
 }
 
 //verif:model (*github.com/gorilla/websocket.Conn).WritePreparedMessage
 func mWsWritePreparedMessage(c *ws.Conn, pm *ws.PreparedMessage) error {
-	s := wsOf(c)
-	if s.closed {
+	s := WsOf(c)
+	if s.Closed {
 		return errWsClosed
 	}
-	s.out = append(s.out, wsPrepared[pm])
+	s.Out = append(s.Out, wsPrepared[pm])
+	return nil
+}
+
+type modelErr struct{ s string }
+
+func (e *modelErr) Error() string { return e.s }
+
+// FakeAddr is the peer address reported by modelled connections.
+type FakeAddr struct{}
+
+func (FakeAddr) Network() string { return "udp" }
+func (FakeAddr) String() string  { return "192.0.2.7:4433" }
+
+// WsCloseCalls counts Close calls on modelled gorilla connections.
+var WsCloseCalls int
+
+//verif:model (*github.com/gorilla/websocket.Conn).Close
+func mWsConnClose(c *ws.Conn) error {
+	WsCloseCalls++
+	WsOf(c).Closed = true
 	return nil
 }
